@@ -668,6 +668,30 @@ def reconnect_limits_history(rng):
     return g.ops
 
 
+def app_limit_history(rng):
+    """C05/C03: exactly as many applications as the daemon tracks (limits.AppLimit = 250), then more: the extra ones are told
+    "unknown", are not tracked and nothing is sent to the collector on their behalf - however often their agents ask"""
+    g = Gen(rng, napps=1, profile="allok", timeout=0)
+    n = 250
+    extra = rng.randint(1, 3)
+    for i in range(1, n + extra + 1):
+        g.ops.append("proc defapp a%d lic=LIC%d name=app%d redirect=- lang=php ver=1.0 host=h%d dt=0 span=10000 log=10000 custom=30000 docker=-" % (i, i, i, i % 7))
+    order = list(range(1, n + 1))
+    for i in order:
+        g.ops.append("proc app a%d run=-" % i)
+    # a few of the tracked ones get connected meanwhile
+    for i in rng.sample(order, 3):
+        g.ops.append("proc reply a%d preconnect 0 200 host=coll-a%d.example" % (i, i))
+        g.ops.append("proc reply a%d connect 0 200 run=r%dqqq rp=- ee=- ae=- ce=- se=- le=- srp=- sl=- rules=- hdr=-" % (i, i))
+    for _ in range(2):
+        for i in range(n + 1, n + extra + 1):
+            g.ops.append("proc app a%d run=%s" % (i, rng.choice(["-", "-", "rX"])))
+        g.ops.append("proc advance 31")
+    g.ops.append("proc app a%d run=-" % rng.choice(order))
+    g.ops.append("proc cleanexit default=200")
+    return g.ops
+
+
 def rule_change_history(rng):
     """C07: the rename rules are those of the run's own connect reply.  An application connects with one rule list, reports
     metrics, is restarted by the collector at a harvest (409) and reconnects with another rule list (or none); possibly again"""
